@@ -21,6 +21,7 @@ def run(ctx: Ctx) -> Collector:
     c = Collector("R1")
     _wait_loops(ctx, c)
     _progress(ctx, c)
+    _futures_writers(ctx, c)
     return c
 
 
@@ -386,3 +387,44 @@ def _whole_list_iteration(src: Term, futs: Term) -> Optional[str]:
 
 
 from ..terms import call  # noqa: E402
+
+
+def _futures_writers(ctx: Ctx, c: Collector) -> None:
+    """The list of registered waiters of a Progress is appended to by `_add_trigger` and pruned by `set` (an entry
+    goes when its trigger fires) and by nothing else: a waiter that is removed in any other way -- by target time, by
+    an abandoned future's spec, by a clean-up after a time-out -- may belong to another coroutine, which is then never
+    woken (lost wake-up: the run hangs)."""
+    allowed = {f"{PROGRESS}.__init__", f"{PROGRESS}._add_trigger", f"{PROGRESS}.set"}
+    n = 0
+    bad = []
+    for fi in analysis_units(ctx.prog):
+        s = summarise(ctx.prog, fi)
+        for e in s.events:
+            hit = None
+            if e.kind in ("store", "del"):
+                t = e.term[1]
+                base = t[1] if t[0] == "idx" else t
+                if base[0] == "attr" and base[2] == "_futures":
+                    hit = "re-assigned" if t[0] == "attr" else "modified"
+            elif e.kind == "call" and e.term[1][0] == "attr" and e.term[1][1][0] == "attr" and e.term[1][1][2] == "_futures" \
+                    and e.term[1][2] in ("append", "remove", "pop", "clear", "insert", "extend", "sort", "reverse"):
+                hit = f".{e.term[1][2]}()"
+            if hit is None:
+                continue
+            n += 1
+            via = e.extra.get("via") if isinstance(e.extra, dict) else None
+            where = via or fi.qualname
+            if where not in allowed:
+                bad.append((fi, e, hit, where))
+    c.info["futures_writes"] = n
+    if n < 2:
+        raise AnalysisError(f"R1/O5e: only {n} writes to Progress._futures found (append in _add_trigger, removal in set confirmed by hand)")
+    seen = set()
+    for fi, e, hit, where in bad:
+        if (where, hit) in seen:
+            continue
+        seen.add((where, hit))
+        c.bad("O5e", where, f"_futures {hit}", f"the list of registered waiters is {hit} in {where.rsplit('.', 1)[-1]} (line {e.lineno}): only Progress.set removes entries, and only those whose trigger fired; "
+              "any other removal can drop the waiter of another coroutine, which is then never woken", ctx.loc(fi, e))
+    if not bad:
+        c.ok("O5e", "mosaik.*", "registered waiters are removed by Progress.set only", f"{n} writes to _futures, all in __init__ / _add_trigger / set", "")
